@@ -37,6 +37,8 @@ class Handle(object):
     self.thr_writer = None        # ('fit'|'set'|'calibrate', info)
     self.thr_ops = []             # threshold writers since the last fit
     self.n_fits = 0
+    self.n_ok_fits = 0            # fits that returned
+    self.n_interrupted = 0        # fits the simulator interrupted
     self.dirty = False            # set_params since the last fit
     self.d_fit = None
     self.history = []
@@ -373,6 +375,10 @@ class Machine(object):
     h.n_fits += 1
     h.dirty = False
     ok = ev["outcome"] == "ok"
+    if ok or ev["outcome"] == "swallowed":
+      h.n_ok_fits += 1
+    if live.get("interrupted"):
+      h.n_interrupted += 1
     if ok and not op.get("malformed"):
       h.defined = True
       h.last_fit = dict(op=op, via=via, d=D.d)
